@@ -30,6 +30,8 @@ RULE = ('case = list of 0-7 (mostly 1-7) (task name, environment section) pairs 
         'TestStatsTestsByLabels; oracle = counting by plain loops over the case. non-trivial = >= 3 '
         'results with mixed verdicts and at least one result lacking a requested label or one task '
         "without 'result'; distinct = structural hash of the case")
+RULE_ADDENDA = (' Also: reserved labels _result / _test_name on one result in twelve; results that come from the same Test object as an earlier one (re-evaluated after its data changed); the verdict read again after the counting helper.')
+RULE = RULE + RULE_ADDENDA
 ASSUMPTIONS = [
     "elements of a 'result' list are TestResult objects, except in ~5 % of the cases where one or more "
     'entries are plain values (int / str / dict / None): the test summary must list each of them once '
